@@ -58,7 +58,7 @@ CLAIMED = {
     'C09': {
         'text': 'Deductive proof (Verus): postcondition of the verbatim unify - if either operand is $_ the result is Some of the identical substitution set (same Rc). '
                 'Because every nested position is reached through a recursive unify call checked against the same contract, the clause holds wherever $_ occurs.',
-        'note': 'Trusted: T1, T2, T4, T5. Programs using $_ through the solver are outside reach.',
+        'note': 'Trusted: T1, T2, T4, T5. Programs using $_ reach unify through the solver, which calls it within its preconditions (unit solver_wf, C08); a bounded oracle looks at whole programs with $_.',
         'technique': 'contract-based deductive verification (Verus) of extracted real code',
         'design_ref': 'DESIGN.md 5/C09',
     },
